@@ -135,6 +135,12 @@ func (d *dir) RepoGet(ctx context.Context, repoStr string) (Repo, error) {
 	if stringsHasAny(strings.Split(repoStr, "/"), indexFile, layoutFile, blobsDir) {
 		return nil, fmt.Errorf("repo %s cannot contain %s, %s, or %s%.0w", repoStr, indexFile, layoutFile, blobsDir, types.ErrRepoNotAllowed)
 	}
+	// each path element becomes a directory name, which filesystems limit to 255 bytes
+	for _, el := range strings.Split(repoStr, "/") {
+		if len(el) > 255 {
+			return nil, fmt.Errorf("repo %s has a path element longer than 255 characters%.0w", repoStr, types.ErrRepoNotAllowed)
+		}
+	}
 	dr := dirRepo{
 		wgBlock: make(chan struct{}, 1),
 		path:    filepath.Join(d.root, repoStr),
